@@ -80,7 +80,7 @@ def run(ctx):
     os.remove(ver), os.remove(scn), os.remove(rres.out_path)
     # the contract, on the recorded outcomes
     if nrec:
-        tres = ctx.tlc("ContractTrace", "ContractTrace.cfg", workers=16, env={"TRACE_FILE": allrec}, timeout=3000, heap_gb=12)
+        tres = ctx.tlc_trace("ContractTrace", "ContractTrace.cfg", allrec, workers=16, timeout=3000, heap_gb=12)
         if tres.distinct != nrec:
             raise MachineryError("TLC validated %d of %d outcome records" % (tres.distinct, nrec))
         bad = ctx.tuples(tres, "BAD")
